@@ -920,6 +920,15 @@ func CheckC12(h *History) []Violation {
 		}
 		op := &o.Op
 		valid := op.RefMode == ""
+		if op.Corrupt != "" {
+			// nothing is required of the answer to a body with a wrongly typed member; answered 4xx it
+			// was rejected and the session is still the client's (the following requests say so);
+			// answered otherwise the client cannot know what was carried out: stop judging this history
+			if is4xx(o.Status) {
+				continue
+			}
+			return v.list
+		}
 		switch op.Kind {
 		case "create":
 			uri := op.NotifyURI
